@@ -6,6 +6,7 @@
 //!
 //! The orchestration (build, sharding, merging, evidence, known findings) is done by /verif/check.
 
+mod evalcmp;
 mod gen;
 mod known;
 mod model;
@@ -70,6 +71,8 @@ fn main() {
             "C02" => monitors::c02::replay(&args, &case, &mut rep),
             "C03" => monitors::c03::replay(&args, &case, &mut rep),
             "C05" => monitors::c05::replay(&case, &mut rep),
+            "C06" => monitors::c06::replay(&args, &case, &mut rep),
+            "C07" => monitors::c07::replay(&args, &case, &mut rep),
             "C08" => monitors::c08::replay(&args, &case, &mut rep),
             "C10" => monitors::c10::replay(&case, &mut rep),
             "C14" => monitors::c14::replay(&case, &mut rep),
@@ -84,6 +87,8 @@ fn main() {
             "C02" => monitors::c02::run(&args, &mut rep),
             "C03" => monitors::c03::run(&args, &mut rep),
             "C05" => monitors::c05::run(&args, &mut rep),
+            "C06" => monitors::c06::run(&args, &mut rep),
+            "C07" => monitors::c07::run(&args, &mut rep),
             "C08" => monitors::c08::run(&args, &mut rep),
             "C10" => monitors::c10::run(&args, &mut rep),
             "C14" => monitors::c14::run(&args, &mut rep),
